@@ -1606,6 +1606,9 @@ func (x *X) instances(upto int) string {
 			if q.class == "" && p.class != "*" && p.class != "idx" && x.rangeWitness[p.term] {
 				// witness of a range loop: the loop counts the previous index, the body works on the next one
 				pts = append(pts, "(+ "+p.term+" 1)")
+			} else if q.class == "" && p.class != "*" && p.class != "idx" {
+				// a specification quantifier may speak about the neighbours of the element a loop stopped at
+				pts = append(pts, "(+ "+p.term+" 1)", "(- "+p.term+" 1)")
 			}
 			if p.class == "idx" && q.class != "" && x.rangeClass[q.class] {
 				// an element index named by the specification, seen from a range loop (which counts the previous index)
